@@ -8,7 +8,7 @@ store `Model/Topics.lean`; specification: `Spec/Broker.lean` (`subCode`).  All
 theorems quantify over every state satisfying the representation invariant
 `Inv` (which `step` preserves from the initial state: `C07_inv_step`).
 -/
-import Mqtt.Proofs.BrokerFanoutSub
+import Mqtt.Proofs.BrokerFanoutGen
 
 set_option linter.unusedSimpArgs false
 
@@ -16,7 +16,7 @@ namespace Mqtt.Properties.C07
 open Mqtt.Iface.Broker Mqtt.Model.Broker Mqtt.Proofs.Broker
 open Mqtt.Model.Topics (MemTopics levels)
 open Mqtt.Proofs.Topics (good abs WF)
-open Mqtt.Spec.Match (split validFilter)
+open Mqtt.Spec.Match (split validFilter validName matchLevels)
 
 /-- the return code for one requested (filter, QoS byte), read off the topic
 store's own answer: the granted QoS `min(requested, server maximum)` if
@@ -196,6 +196,83 @@ theorem C07_unsubscribe_effect (b : B) (hinv : Inv b) (c id : Nat) (topics : Lis
   · have := hp.filter (fun e => e.2.1 != c)
     rw [entriesAfterUnsub_others] at this
     exact this
+
+/-- "A subscription applies to every message the broker accepts after sending
+the SUBACK": in the state right after the SUBSCRIBE step, every decoded PUBLISH
+(QoS <= 2, identifier unless QoS 0) on a good valid topic name that the granted
+filter's path matches is forwarded to the connection - same topic, same
+payload, QoS min(publish QoS, return code of that filter), RETAIN 0. -/
+theorem C07_effective_after_suback_partial (b : B) (hinv : Inv b) (c id : Nat) (pre post : List (Bytes × Nat))
+    (t : Bytes) (q : Nat) (hc : c < cbBase) (hl : b.alive c = true) (ha : accepts t q = true)
+    (hpost : ∀ tq ∈ post, accepts tq.1 tq.2 = true → (levels tq.1).1 ≠ (levels t).1)
+    (p : Pub) (hg : good p.topic = true) (hn : validName p.topic = true) (hq : p.qos ≤ 2)
+    (hid : p.pktid ≠ 0 ∨ p.qos = 0) (hm : matchLevels (levels t).1 (split p.topic) = true) :
+    delivery p c (grantCode b.topics c (t, q)) ∈
+      (onPublish (packet b c (.subscribe id (pre ++ (t, q) :: post))).1 ⟨p, false⟩).2.2.1 := by
+  have hmem := C07_granted_is_held b hinv c id pre post t q hl ha hpost
+  have hinv' := Inv_packet b c (.subscribe id (pre ++ (t, q) :: post)) hinv
+  have hal' : (packet b c (.subscribe id (pre ++ (t, q) :: post))).1.alive c = true := by
+    rw [alive_congr b _ (packet_subscribe_conns b hinv c id _ hl)]; exact hl
+  obtain ⟨_, hperm⟩ := onPublish_char_gen _ p hinv' hg hn hq hid
+  have hin : dropCallRetain (delivery p c (grantCode b.topics c (t, q))) ∈
+      ((onPublish (packet b c (.subscribe id (pre ++ (t, q) :: post))).1 ⟨p, false⟩).2.2.1.map dropCallRetain) := by
+    rw [hperm.mem_iff]
+    refine List.mem_map.mpr ⟨_, List.mem_filter.mpr ⟨hmem, ?_⟩, rfl⟩
+    simp [hm, reachable, hal']
+  obtain ⟨o, ho, heq⟩ := List.mem_map.mp hin
+  have hsend : ∃ pk, delivery p c (grantCode b.topics c (t, q)) = .send c pk := by
+    simp [delivery, hc]
+  obtain ⟨pk, hpk⟩ := hsend
+  rw [hpk] at heq ⊢
+  simp only [dropCallRetain] at heq
+  rw [← dropCallRetain_send o _ _ heq]
+  exact ho
+
+/-- "... and to none it accepts after sending the UNSUBACK": in the state right
+after the UNSUBSCRIBE step, whatever a PUBLISH makes the broker hand to `c`
+stems from a subscription of `c` under a path other than those of the listed
+filters (`dropCallRetain`: the RETAIN flag an in-process callback sees apart). -/
+theorem C07_none_after_unsuback_partial (b : B) (hinv : Inv b) (c id : Nat) (topics : List Bytes)
+    (hl : b.alive c = true)
+    (p : Pub) (hg : good p.topic = true) (hn : validName p.topic = true) (hq : p.qos ≤ 2)
+    (hid : p.pktid ≠ 0 ∨ p.qos = 0) :
+    ∀ o ∈ (onPublish (packet b c (.unsubscribe id topics)).1 ⟨p, false⟩).2.2.1, target o = some c →
+      ∃ e ∈ abs (packet b c (.unsubscribe id topics)).1.topics.sroot,
+        e.2.1 = c ∧ matchLevels e.1 (split p.topic) = true ∧
+        (∀ t ∈ topics, (levels t).2 = true → e.1 ≠ (levels t).1) ∧
+        dropCallRetain o = dropCallRetain (delivery p c e.2.2) := by
+  intro o ho htc
+  obtain ⟨hinv', _, habs, _⟩ := C07_unsubscribe_effect b hinv c id topics hl
+  obtain ⟨_, hperm⟩ := onPublish_char_gen _ p hinv' hg hn hq hid
+  have hin : dropCallRetain o ∈
+      ((onPublish (packet b c (.unsubscribe id topics)).1 ⟨p, false⟩).2.2.1.map dropCallRetain) :=
+    List.mem_map.mpr ⟨o, ho, rfl⟩
+  rw [hperm.mem_iff] at hin
+  obtain ⟨e, he, heq⟩ := List.mem_map.mp hin
+  obtain ⟨he1, he2⟩ := List.mem_filter.mp he
+  simp only [Bool.and_eq_true] at he2
+  have hce : e.2.1 = c := by
+    have h1 : target (dropCallRetain (fwd p (e.2.1, min p.qos e.2.2))) = some e.2.1 := by
+      rw [target_dropCallRetain, ← delivery_eq, target_delivery]
+    rw [heq, target_dropCallRetain, htc] at h1
+    exact (Option.some.inj h1).symm
+  refine ⟨e, he1, hce, he2.1, ?_, ?_⟩
+  · intro t ht hlv hpath
+    apply habs t ht hlv e.2.2
+    have : ((levels t).1, c, e.2.2) = e := by rw [← hpath, ← hce]
+    rw [this]
+    exact he1
+  · rw [← heq, hce]; rfl
+
+/-- non-vacuity: connection 2 subscribes "a/+" (QoS 1): a QoS 1 PUBLISH on "a/b"
+reaches it; after UNSUBSCRIBE of "a/+" the same PUBLISH reaches nobody -/
+example :
+    let p : Pub := { qos := 1, topic := [97, 47, 98], pktid := 3, payload := [9] }
+    let b1 := (packet exState 2 (.subscribe 1 [([97, 47, 43], 1)])).1
+    let b2 := (packet b1 2 (.unsubscribe 2 [[97, 47, 43]])).1
+    (onPublish exState ⟨p, false⟩).2.2.1 = [] ∧
+    (onPublish b1 ⟨p, false⟩).2.2.1 = [.send 2 (.publish { qos := 1, topic := [97, 47, 98], pktid := 3, payload := [9] })] ∧
+    (onPublish b2 ⟨p, false⟩).2.2.1 = [] := by decide
 
 /-- Against the reference broker, for requests whose filters have no empty and
 no '$'-led level: if the trie holds exactly the specification's held
